@@ -508,6 +508,7 @@ type PureFunc struct {
 	Text      string
 	Pkg       string
 	Recursive bool
+	Sealed    bool // opaque, definition split into two implications (not a macro for the solver)
 	Opaque    bool // kept as a function symbol with a pattern-guarded definitional axiom (gives quantifier triggers)
 	Line      int
 }
@@ -553,7 +554,7 @@ type SpecFile struct {
 }
 
 var clauseKeywords = map[string]bool{
-	"func": true, "pure": true, "opaque": true, "props": true, "requires": true, "ensures": true, "modifies": true,
+	"func": true, "pure": true, "opaque": true, "ground": true, "sealed": true, "props": true, "requires": true, "ensures": true, "modifies": true,
 	"loop": true, "invariant": true, "decreases": true, "assert_at": true, "table": true, "axiom": true,
 	"lemma": true, "inline": true, "hint": true, "chaninv": true, "arith": true, "trusted": true, "cover": true, "note": true,
 	"maypanic": true, "noauto": true, "cases": true, "float": true, "ghostzero": true, "params": true, "allowexit": true, "extern": true, "makelimit": true,
@@ -654,12 +655,20 @@ func ParseSpecFile(path, pkg, content string) (*SpecFile, error) {
 			curLoop = nil
 			curLemma = nil
 			sf.Contracts = append(sf.Contracts, cur)
-		case "pure", "opaque":
+		case "pure", "opaque", "ground", "sealed":
 			pf, err := parsePure(rest, pkg, l.line)
 			if err != nil {
 				return nil, fmt.Errorf("%s:%d: %v", path, l.line, err)
 			}
-			pf.Opaque = kw == "opaque"
+			pf.Opaque = kw == "opaque" || kw == "sealed"
+			// sealed: an opaque predicate whose definition is emitted as two implications, so that
+			// solvers cannot treat the definitional axiom as a macro and inline the body everywhere
+			pf.Sealed = kw == "sealed"
+			if kw == "ground" {
+				// non-recursive, but treated like a recursive spec function: an SMT function symbol whose
+				// definition is instantiated at ground applications only (no quantified definitional axiom)
+				pf.Recursive = true
+			}
 			sf.Pures = append(sf.Pures, pf)
 			cur, curLoop, curLemma = nil, nil, nil
 		case "axiom":
